@@ -358,7 +358,7 @@ func (rt *runtime) cmplEvaluateNodeSwitchStatement(node *nodeSwitchStatement) Va
 	labels := append(rt.labels, "") //nolint:gocritic
 	rt.labels = nil
 
-	discriminantResult := rt.cmplEvaluateNodeExpression(node.discriminant)
+	discriminantResult := rt.cmplEvaluateNodeExpression(node.discriminant).resolve() // GetValue once, before any case expression (ES5 12.11)
 	target := node.defaultIdx
 
 	for index, clause := range node.body {
